@@ -14,12 +14,18 @@ posting counts and TLC decides, exhaustively with small block capacities (Cap = 
   tokens   getTokensBlocksGenerator x writeTokensBlocks: every TID addressed by exactly one table
            entry, the generator always advances (TokensOK; the as-is formula of finding #9 is kept
            as the named deviation Finding9 = TRUE and must violate it: non-vacuity self-test);
-  ref      the interval arithmetic that computes expected answers = plain set semantics (RefOK);
+  ref      the interval arithmetic that computes expected answers = plain set semantics (RefOK), incl. the
+           aggregation answers (count / unique grouped by g, k, u, x; numeric samples of the u values
+           grouped by g or ungrouped) and the preconditions of the probe generator (ProbeSane);
   realall  the same layout invariants for every combination of the boundary classes at the REAL
            constants (65536 LIDs, 4096 IDs, 16 KiB).
 Binding: mode `real` emits shape classes at the real constants (a fixed core list + shapes drawn
-from the seed) with a store configuration, the predicted block layout and 100-400 probes with their
-answers; harness/cmd/shapes builds each corpus for real and asks every probe of the active
+from the seed) with a store configuration, the predicted block layout and 100-450 probes with their
+answers (searches, histograms, fetch lists and aggregations; the aggregation probes over the u / k
+dictionaries are derived from the predicted token-table entries: the documents whose token is the
+first / last one of every picked entry (token block), all borders at once, each border token alone,
+a time cut around it, the whole dictionary when it is small); harness/cmd/shapes builds each corpus
+for real and asks every probe of the active
 fraction, the freshly sealed one, the store restarted from files and the store restarted with the
 other cache class, and compares the .index file read back through the real readers with the
 predicted layout."""
@@ -122,11 +128,16 @@ def run(ctx):
     cf, summ = replay_shapes(ctx, drv, "IndexLayout_real.cfg" if quick else "IndexLayout_realth.cfg", "c03")
     pooled_seal_stage(ctx, drv, cf, "c03")
     nshape = nprobe = 0
+    nagg = {}
     with open(cf) as fh:
         for ln in fh:
             c = json.loads(ln)
             nshape += 1
             nprobe += len(c["probes"])
+            for pe in c["probes"]:
+                if pe["p"]["t"] == "a":
+                    k = "%s by %s" % (pe["p"]["fn"], pe["p"]["by"] or "-")
+                    nagg[k] = nagg.get(k, 0) + 1
             if len(ctx.cov["samples"]) < 3 and c["i"] in (2, 4, 11):
                 ctx.cov["samples"].append({"i": c["i"], "shape": c["shape"], "cfg": c["cfg"], "f9": c["f9"],
                                            "layout.lids": c["layout"]["lids"], "idBlocks": len(c["layout"]["idBlocks"]),
@@ -136,6 +147,7 @@ def run(ctx):
     ctx.cov["distinct_nontrivial"] = summ["nontrivial"]
     ctx.cov["layouts_compared_with_index_file"] = summ["corpora"]
     ctx.cov["probes_emitted"] = nprobe
+    ctx.cov["aggregation_probes_emitted"] = dict(sorted(nagg.items()))
     ctx.cov["exhaustive"] = True
     ctx.cov["rule"] = (
         "design: every state of the small-scope modes is one input (layout: <=2 fields x <=2 (thorough 3) tokens x 1..7 postings, Cap 3; "
@@ -147,12 +159,17 @@ def run(ctx):
         "(documents around 4096-ID and 65536-LID borders, 1/3/5000 documents per timestamp, posting intervals low/mid/high, token names of "
         "2 B..17 KiB, u dictionaries around one 16 KiB block and around the packing threshold, bodies 12/40/700 B) x store configuration "
         "(sorted-docs rewriting on/off, cache 64 KiB with the real cleaner every 1 ms or 256 MiB, zstd level, bulk size, arrival order); "
-        "evaluations = probe executions (each unique probe x 4 forms, a third also through the Searcher, one fetch list through GrpcV1.Fetch); "
+        "probes per shape: searches / histograms / fetch lists as before, and aggregations = count and unique grouped by g, k, u, x and the "
+        "numeric samples (count, min, max, sum, not-exists) of the u values grouped by g / ungrouped, over document sets derived from the "
+        "predicted token-table entries of the u dictionary (<= 7, thorough <= 40 entries: all; else 6 picked) and over the documents with "
+        "exactly one k token, every k token alone, the field after the dictionary; "
+        "evaluations = probe executions (each unique probe x 6 forms, a third also through the Searcher, one fetch list through GrpcV1.Fetch); "
         "non-trivial = search probes with a non-empty expected answer")
     ctx.assumptions += [
         "sizes are boundary classes, not every size; inside a class one representative corpus is built (documents i = 1..n with timestamp base + i div d, RID = i)",
         "k tokens hold contiguous document intervals, u tokens are zero-padded decimals (prefix queries = intervals); the iterators are decided for arbitrary LID sets only in the small scope",
         "every document carries the _all_ token (as the proxy emits it)",
+        "group-by k is asked only of document sets on which every document has at most one k token (which token stands for a multi-valued document is unspecified); aggregation literals are `<field>:*` as storeapi builds them; quantiles are not asked",
         "cache coherence under forced schedules is C18's subject; here the real cleaner runs every millisecond with a 64 KiB budget while the probes run",
         "PreloadedData tables are compared with the tables loaded from the file only through the answers they produce (no accessor for the tables of a Sealed); the file itself is compared with the model",
     ]
